@@ -387,51 +387,81 @@ func TestGocvReplay(t *testing.T) {
 	for _, m := range []string{"Enum", "Bitmask"} {
 		replayers["(*ttlv.ttlvReader)."+m] = readerMethod("func() []any { a, b := dec."+m+"(0, {{.Tag}}); return []any{a, b} }()", tag)
 	}
-	// Struct: the callback decodes the children generically; over-read = the result depends on bytes outside the declared extent
+	// Struct: the decoded tree must not depend on any byte outside the declared extents (padding bytes,
+	// bytes after the item). An independent walker of the wire format marks the bytes inside declared extents.
 	replayers["(*ttlv.ttlvReader).Struct"] = &Replayer{PkgDir: "ttlv", Inputs: []ReplayInput{{Name: "Buf", Expr: "dec.buf", Kind: "bytes"}},
-		Oracle: "UnmarshalTTLV of the model's bytes into a generic ttlv.Value returns normally, and the decoded tree does not change when bytes outside the declared extent of the first child structure's children are altered",
+		Oracle: "UnmarshalTTLV of the model's first item into a generic ttlv.Value: no panic, input unchanged, and the same result when (a) every padding byte is altered, (b) different well-formed items follow it",
 		Template: strings.Replace(replayPrelude, "{{.Pkg}}", "ttlv", 1) + `
 func gocvDecode(b []byte) (s string, p any) {
 	p = gocvCatch(func() {
 		var v Value
 		err := UnmarshalTTLV(b, &v)
-		s = fmt.Sprintf("%#v|%v", v, err)
+		s = fmt.Sprintf("%#v|%v", v, err != nil)
 	})
 	return
 }
 
+// gocvMark marks header and value bytes of the items in b[lo:hi) (children only within the declared length).
+func gocvMark(b []byte, lo, hi int, used []bool) {
+	for lo+8 <= hi {
+		l := int(b[lo+4])<<24 | int(b[lo+5])<<16 | int(b[lo+6])<<8 | int(b[lo+7])
+		for i := lo; i < lo+8; i++ {
+			used[i] = true
+		}
+		end := lo + 8 + l
+		if end > hi {
+			end = hi
+		}
+		if b[lo+3] == 1 {
+			gocvMark(b, lo+8, end, used)
+		} else {
+			for i := lo + 8; i < end; i++ {
+				used[i] = true
+			}
+		}
+		lo = lo + 8 + (l+7)/8*8
+	}
+}
+
 func TestGocvReplay(t *testing.T) {
 	buf := {{.Buf}}
-	orig := append([]byte(nil), buf...)
-	s1, p := gocvDecode(buf)
-	if p != nil {
-		t.Fatalf("GOCV-REPRODUCED: {{.Obligation}}: panic: %v (input %x)", p, orig)
-	}
-	if !bytes.Equal(buf, orig) {
-		t.Fatalf("GOCV-REPRODUCED: {{.Obligation}}: input buffer modified")
-	}
-	// walk the children of the top-level structure; for each child that is itself a structure, bytes after
-	// that child's declared extent must not influence what is decoded inside it
-	if len(buf) < 8 || buf[3] != 1 {
-		t.Log("GOCV-NOT-REPRODUCED: not a structure")
+	if len(buf) < 8 {
+		t.Log("GOCV-NOT-REPRODUCED: too short")
 		return
 	}
 	l := int(buf[4])<<24 | int(buf[5])<<16 | int(buf[6])<<8 | int(buf[7])
-	if 8+l > len(buf) {
-		t.Log("GOCV-NOT-REPRODUCED: rejected")
+	ext := 8 + (l+7)/8*8
+	if ext > len(buf) {
+		t.Log("GOCV-NOT-REPRODUCED: truncated item")
 		return
 	}
-	// decode the structure's content in isolation (copy without trailing bytes) and compare
-	iso := append([]byte(nil), buf[:8+l]...)
-	for len(iso)%8 != 0 {
-		iso = append(iso, 0)
+	iso := append([]byte(nil), buf[:ext]...)
+	orig := append([]byte(nil), iso...)
+	s0, p := gocvDecode(iso)
+	if p != nil {
+		t.Fatalf("GOCV-REPRODUCED: {{.Obligation}}: panic: %v (input %x)", p, orig)
 	}
-	s2, p2 := gocvDecode(iso)
-	if p2 != nil {
-		t.Fatalf("GOCV-REPRODUCED: {{.Obligation}}: panic on the structure in isolation: %v", p2)
+	if !bytes.Equal(iso, orig) {
+		t.Fatalf("GOCV-REPRODUCED: {{.Obligation}}: input buffer modified")
 	}
-	if s1 != s2 {
-		t.Fatalf("GOCV-REPRODUCED: {{.Obligation}}: decoding depends on bytes outside the structure's declared extent:\n with trailing bytes: %s\n in isolation:       %s", s1, s2)
+	used := make([]bool, len(iso))
+	gocvMark(iso, 0, 8+l, used)
+	flipped := append([]byte(nil), iso...)
+	for i := range flipped {
+		if !used[i] {
+			flipped[i] ^= 0xFF
+		}
+	}
+	x1 := []byte{0x42, 0, 1, 2, 0, 0, 0, 4, 0, 0, 0, 1, 0, 0, 0, 0}
+	x2 := []byte{0x42, 0, 2, 7, 0, 0, 0, 3, 'a', 'b', 'c', 0, 0, 0, 0, 0}
+	for name, variant := range map[string][]byte{"padding bytes altered": flipped, "followed by an Integer item": append(append([]byte(nil), iso...), x1...), "followed by a TextString item": append(append([]byte(nil), iso...), x2...)} {
+		s, p := gocvDecode(variant)
+		if p != nil {
+			t.Fatalf("GOCV-REPRODUCED: {{.Obligation}}: panic with %s: %v", name, p)
+		}
+		if s != s0 {
+			t.Fatalf("GOCV-REPRODUCED: {{.Obligation}}: the decoded tree depends on bytes outside the declared extent (%s):\n alone:   %s\n variant: %s\n input %x", name, s0, s, orig)
+		}
 	}
 }
 `}
